@@ -5,9 +5,22 @@ use proc_macro2::Span;
 
 pub type Res<T> = Result<T, String>;
 
+thread_local! {
+    /// the source file the spans at hand belong to
+    pub static CUR_FILE: std::cell::RefCell<String> = std::cell::RefCell::new("src/lib.rs".to_string());
+}
+
+pub fn set_file(f: &str) {
+    CUR_FILE.with(|c| *c.borrow_mut() = f.to_string());
+}
+
+pub fn cur_file() -> String {
+    CUR_FILE.with(|c| c.borrow().clone())
+}
+
 pub fn at(sp: Span) -> String {
     let s = sp.start();
-    format!("src/lib.rs:{}:{}", s.line, s.column + 1)
+    format!("{}:{}:{}", cur_file(), s.line, s.column + 1)
 }
 
 pub fn unsupported<T>(what: &str, sp: Span) -> Res<T> {
@@ -40,8 +53,38 @@ pub enum Ty {
     /// `Result<(), T>`                           -> option elem, None = Ok(())
     ResUnitElem,
     Tuple(Vec<Ty>),
-    /// the payload of a bare `None`
+    /// the payload of a bare `None`, or the value of an expression that diverges
     Any,
+    /// a struct of the crate that the model renders as a record (`Iter`, `IterMut` -> iter,
+    /// `Drain` -> drain, `CircularSlicePtr` -> csp); the name is the Rust type's
+    Rec(String),
+    /// `Bound<&usize>`                           -> bound
+    Bound,
+    /// a value of a type `R: RangeBounds<usize>`: only as its two bounds
+    Bounds,
+    /// `&CircularBuffer`, `&mut CircularBuffer`, `NonNull<CircularBuffer>`, the `inner` of an
+    /// `IntoIter`: the machine state itself, never a Coq value
+    Buf,
+    /// the place `<buffer>.items`
+    Items,
+    /// a local of a nested struct type with a nested `impl Drop` (never a Coq value)
+    Guard(String),
+    /// `&[T]`, `&[u8]`, `&mut [u8]` outside the array -> list elem
+    List,
+    /// `io::Result<_>` / `Result<_, Infallible>`: always `Ok`, rendered as the payload
+    IoRes(Box<Ty>),
+    /// `F: FnMut() -> T`: the user closure of fill_with / fill_spare_with (never a Coq value)
+    Closure,
+}
+
+/// the Coq record type of a struct of the crate
+pub fn rec_coq(name: &str) -> Option<&'static str> {
+    match name {
+        "Iter" | "IterMut" => Some("iter"),
+        "Drain" => Some("drain"),
+        "CircularSlicePtr" => Some("csp"),
+        _ => None,
+    }
 }
 
 impl Ty {
@@ -59,6 +102,15 @@ impl Ty {
             Ty::ResUnitElem => "Result<(), T>".into(),
             Ty::Tuple(v) => format!("({})", v.iter().map(|t| t.show()).collect::<Vec<_>>().join(", ")),
             Ty::Any => "_".into(),
+            Ty::Rec(n) => n.clone(),
+            Ty::Bound => "Bound<&usize>".into(),
+            Ty::Bounds => "impl RangeBounds<usize>".into(),
+            Ty::Buf => "&CircularBuffer".into(),
+            Ty::Items => "[MaybeUninit<T>; N]".into(),
+            Ty::Guard(n) => format!("{} (local type with a destructor)", n),
+            Ty::List => "&[T] (outside the array)".into(),
+            Ty::IoRes(t) => format!("Result<{}, _>", t.show()),
+            Ty::Closure => "impl FnMut() -> T".into(),
         }
     }
 
@@ -75,7 +127,16 @@ impl Ty {
                 let parts = v.iter().map(|t| t.coq().map(|s| paren_ty(&s))).collect::<Res<Vec<_>>>()?;
                 parts.join(" * ")
             }
-            Ty::Range | Ty::Any => return Err(format!("type {} has no Coq counterpart", self.show())),
+            Ty::Rec(n) => match rec_coq(n) {
+                Some(c) => c.into(),
+                None => return Err(format!("struct {} has no record in the model", n)),
+            },
+            Ty::Bound => "bound".into(),
+            Ty::List => "list elem".into(),
+            Ty::IoRes(t) => t.coq()?,
+            Ty::Range | Ty::Any | Ty::Bounds | Ty::Buf | Ty::Items | Ty::Guard(_) | Ty::Closure => {
+                return Err(format!("type {} has no Coq counterpart", self.show()))
+            }
         })
     }
 
@@ -85,6 +146,7 @@ impl Ty {
             (Ty::Any, _) | (_, Ty::Any) => true,
             (Ty::Opt(a), Ty::Opt(b)) => a.compat(b),
             (Ty::Tuple(a), Ty::Tuple(b)) => a.len() == b.len() && a.iter().zip(b).all(|(x, y)| x.compat(y)),
+            (Ty::IoRes(a), Ty::IoRes(b)) => a.compat(b),
             (a, b) => a == b,
         }
     }
@@ -95,6 +157,7 @@ impl Ty {
             (Ty::Any, t) | (t, Ty::Any) => t.clone(),
             (Ty::Opt(a), Ty::Opt(b)) => Ty::Opt(Box::new(a.join(b))),
             (Ty::Tuple(a), Ty::Tuple(b)) => Ty::Tuple(a.iter().zip(b).map(|(x, y)| x.join(y)).collect()),
+            (Ty::IoRes(a), Ty::IoRes(b)) => Ty::IoRes(Box::new(a.join(b))),
             (a, _) => a.clone(),
         }
     }
@@ -145,6 +208,13 @@ pub enum Comp {
     Let(String, Val, Box<Comp>),
     /// `match v with None => none | Some x => some end`
     MatchOpt(Val, String, Box<Comp>, Box<Comp>),
+    /// `match v1, v2 with | p => c ... end`
+    Match(Vec<Val>, Vec<(String, Comp)>, Ty),
+    /// `finally body cleanup` / `on_unwind body cleanup`
+    Finally(Box<Comp>, Box<Comp>),
+    OnUnwind(Box<Comp>, Box<Comp>),
+    /// `match cg_fuel with O => panic PFuel | S cg_fuel' => c end`
+    Fuel(Box<Comp>),
 }
 
 impl Comp {
@@ -154,6 +224,9 @@ impl Comp {
             Comp::Op(_, _, t) | Comp::If(_, _, _, t) => t.clone(),
             Comp::Bind(_, _, k) | Comp::Let(_, _, k) => k.ty(),
             Comp::MatchOpt(_, _, n, s) => s.ty().join(&n.ty()),
+            Comp::Match(_, _, t) => t.clone(),
+            Comp::Finally(b, _) | Comp::OnUnwind(b, _) => b.ty(),
+            Comp::Fuel(c) => c.ty(),
         }
     }
     pub fn simple(&self) -> bool {
@@ -169,8 +242,9 @@ pub enum Pre {
     /// the flag: a read of the state that can neither fail nor change anything
     Bind(Option<String>, Comp, bool),
     Let(String, Val),
-    /// `e?` on an `Option`: return `None` from the function, or go on with the payload
-    Try(String, Val),
+    /// `e?` on an `Option`: return `None` from the function (the computation given, which
+    /// includes what the function hands back for its `&mut` parameters), or go on with the payload
+    Try(String, Val, Comp),
 }
 
 impl Pre {
@@ -189,10 +263,7 @@ pub fn wrap(pre: Vec<Pre>, tail: Comp) -> Comp {
         c = match p {
             Pre::Bind(n, m, _) => Comp::Bind(n, Box::new(m), Box::new(c)),
             Pre::Let(n, v) => Comp::Let(n, v, Box::new(c)),
-            Pre::Try(n, v) => {
-                let none = Comp::Ret(Val::atom("None", Ty::Opt(Box::new(Ty::Any))));
-                Comp::MatchOpt(v, n, Box::new(none), Box::new(c))
-            }
+            Pre::Try(n, v, none) => Comp::MatchOpt(v, n, Box::new(none), Box::new(c)),
         };
     }
     c
@@ -219,6 +290,16 @@ fn inline(c: &Comp) -> String {
     }
 }
 
+/// a computation as an argument of `finally` / `on_unwind`
+fn arg(c: &Comp, ind: usize) -> String {
+    match c {
+        Comp::Ret(_) => format!("({})", inline(c)),
+        Comp::Op(_, a, _) if !a.is_empty() => format!("({})", inline(c)),
+        Comp::Op(..) => inline(c),
+        _ => format!("(\n{}\n{})", render(c, ind + 2), pad(ind)),
+    }
+}
+
 /// a computation used as the first argument of a bind or as a branch
 fn boxed(c: &Comp, ind: usize) -> String {
     if c.simple() {
@@ -242,6 +323,20 @@ pub fn render(c: &Comp, ind: usize) -> String {
         Comp::MatchOpt(v, x, n, s) => format!(
             "{}match {} with\n{}| None => {}\n{}| Some {} =>\n{}\n{}end",
             p, v.tm, p, boxed(n, ind + 2), p, x, render(s, ind + 2), p
+        ),
+        Comp::Match(vs, arms, _) => {
+            let mut o = format!("{}match {} with\n", p, vs.iter().map(|v| v.tm.clone()).collect::<Vec<_>>().join(", "));
+            for (pat, c) in arms {
+                o.push_str(&format!("{}| {} =>\n{}\n", p, pat, render(c, ind + 4)));
+            }
+            o.push_str(&format!("{}end", p));
+            o
+        }
+        Comp::Finally(b, c) => format!("{}finally {}\n{}  {}", p, arg(b, ind + 2), p, arg(c, ind + 2)),
+        Comp::OnUnwind(b, c) => format!("{}on_unwind {}\n{}  {}", p, arg(b, ind + 2), p, arg(c, ind + 2)),
+        Comp::Fuel(c) => format!(
+            "{}match cg_fuel with\n{}| O => panic PFuel\n{}| S cg_fuel' =>\n{}\n{}end",
+            p, p, p, render(c, ind + 2), p
         ),
     }
 }
